@@ -3,7 +3,7 @@ import ast
 from ..engine.model import AnalysisError, dotted
 from ..engine.context import unparse, enclosing_stmt, stores_in, names_in, enclosing_loops, enclosing_trys, in_lock_region
 from ..engine.cfg import walk_no_nested, calls_in, facts_of, no_exc, handler_is_catch_all
-from .c03 import edge_has_fact
+from .c03 import edge_has_fact, flag_fact
 
 EXPLANATION = (
     "Thin by nature (stated as such): only the bookkeeping of Daemon.streaming_responses is decided. Decided: an unknown stream "
@@ -277,6 +277,42 @@ def run(ctx, R, tier):
     ok = bool(sends) and all(ccfg.guarded(n, lambda e: edge_has_fact(e, connected)) for c in sends for n in ctx.node_of(cl, c))
     R.check(ok, "C10-R6", "close|only-while-connected", "close_stream is sent only while the proxy is connected", cl.loc(),
             "closing a stream of a disconnected proxy would reconnect / raise")
+
+    # server: the result of a single (non-batch) call or attribute read goes through _streamResponse before it is serialised into the reply
+    hr = ctx.fn("Pyro5.server.Daemon.handleRequest")
+    hcfg = ctx.cfg(hr)
+    sr_nodes = [n for c in ctx.calls_to(hr, "Pyro5.server.Daemon._streamResponse") for n in ctx.node_of(hr, c)]
+    reply_dumps = [n for c, _ in ctx.cg.calls_of(hr) if isinstance(c.func, ast.Attribute) and c.func.attr == "dumps" for n in ctx.node_of(hr, c)]
+    producers = []
+    for st, t, k in stores_in(hr.node):
+        if k == "assign" and isinstance(t, ast.Name) and isinstance(st.value, ast.Call) and not enclosing_loops(st, hr.node):
+            if ctx.is_call_to(st.value, hr, "Pyro5.server._get_exposed_property_value") or (isinstance(st.value.func, ast.Name) and ctx.cg.is_local(hr, st.value.func.id) and any(isinstance(a, ast.Starred) for a in st.value.args)):
+                producers.append(st)
+    if len(producers) < 2 or not reply_dumps:
+        raise AnalysisError("handleRequest: result producers / reply serialisation vanished (%d, %d)" % (len(producers), len(reply_dumps)))
+    for i_, st in enumerate(producers):
+        # oneway requests get no reply at all: paths along an edge that establishes the ONEWAY flag are not reply paths
+        def oneway(atom, pol):
+            return pol is True and flag_fact(ctx, hr, atom, "Pyro5.protocol.FLAGS_ONEWAY")
+        ok = bool(sr_nodes) and hcfg.all_paths_pass(hcfg.nodes_for(st), lambda n: n in sr_nodes, edge_ok=lambda e: e.kind != "exc" and not edge_has_fact(e, oneway), targets=reply_dumps)
+        R.check(ok, "C10-R3", "handleRequest|result#%d-passes-_streamResponse" % i_, "`%s` reaches the reply only through _streamResponse (iterators become streams)" % unparse(st, 50), hr.loc(st),
+                "the result of `%s` can be serialised into the reply without passing _streamResponse: a returned iterator is not turned into a stream" % unparse(st, 50))
+
+    # client: a streamed result is recognised by its flag before the (compatibility) exception that accompanies it is raised
+    inv = ctx.fn("Pyro5.client.Proxy._pyroInvoke")
+    icfg = ctx.cfg(inv)
+
+    def streamed(want):
+        def pred(atom, pol):
+            return pol is want and flag_fact(ctx, inv, atom, "Pyro5.protocol.FLAGS_ITEMSTREAMRESULT")
+        return pred
+    its = [n for c, _ in ctx.cg.calls_of(inv) if unparse(c.func).endswith("_StreamResultIterator") for n in ctx.node_of(inv, c)]
+    exc_raises = [n for n in icfg.nodes if n.kind == "stmt" and isinstance(n.ast, ast.Raise) and isinstance(n.ast.exc, ast.Name)
+                  and any(unparse(c.func).endswith(".loads") for d in ctx.rd(inv).reaching(n, n.ast.exc.id) if d.value is not None for c in ast.walk(d.value) if isinstance(c, ast.Call))]
+    ok = bool(its) and all(icfg.guarded(n, lambda e: edge_has_fact(e, streamed(True))) for n in its) and \
+        bool(exc_raises) and all(icfg.guarded(n, lambda e: edge_has_fact(e, streamed(False))) for n in exc_raises)
+    R.check(ok, "C10-R6", "_pyroInvoke|stream-flag-before-exception", "a reply flagged ITEMSTREAMRESULT yields the stream iterator; the decoded exception is raised only for unflagged replies",
+            inv.loc(), "the reply's stream flag is not honoured before the accompanying exception is raised: the caller gets 'result of call is an iterator' instead of the items")
 
     # ---------------------------------------------------------------- R7
     from .common import fresh_per_instance
